@@ -319,6 +319,28 @@ Definition corr_both (c : conn_case) : Z :=
 
 Definition moni (b : bool) : Z := if b then 0 else 2.
 
+(* "A Status-intent connection is answered with exactly one Status Response and one Pong": when the client's
+   well-formed Status Request arrived and the status service answered, the response was sent; when its Ping
+   arrived as well, so was the Pong with the same payload.  (The order automaton alone accepts a connection
+   that ends with an error instead of answering.) *)
+Definition status_answered (c : conn_case) : bool :=
+  if negb (intent_of c =? 0) then true else
+  match case_inbox c with
+  | (_, IFrame 0 _) :: (_, IFrame 0 []) :: rest =>
+      match fst (cc_status c) with
+      | RStatus _ =>
+          existsb (fun x => snd (fst x) =? 0) (cc_sent c)
+          && match rest with
+             | (_, IFrame 1 payload) :: _ =>
+                 if Nat.eqb (length payload) 8
+                 then existsb (fun x => (snd (fst x) =? 1) && beq (snd x) payload) (cc_sent c) else true
+             | _ => true
+             end
+      | _ => true
+      end
+  | _ => true
+  end.
+
 (* correspondence + the property's monitor on the implementation's trace *)
 Definition check_with (chk : oracles -> conn_cfg -> mst -> tev -> bool) (c : conn_case) : Z :=
   let k := corr_both c in
@@ -326,7 +348,8 @@ Definition check_with (chk : oracles -> conn_cfg -> mst -> tev -> bool) (c : con
   else k + moni (accepts (step_with (chk (case_oracles c) (cc_cfg c))) m_init (obs_trace c)
                  && negb (outcome_eqb (cc_outcome c) (OErr KPanic))     (* a crashed handler satisfies nothing *)
                  && negb (Z.testbit (cc_flags c) 4)     (* nothing may follow an Encryption Response whose secret is no AES-128 key *)
-                 && negb (Z.testbit (cc_flags c) 5)).   (* the handler kept reading (> 1000 times) after the end of the client's stream *)
+                 && negb (Z.testbit (cc_flags c) 5)     (* the handler kept reading (> 1000 times) after the end of the client's stream *)
+                 && status_answered c).
 
 Definition check_c06 := check_with (fun _ _ => chk_c06).
 Definition check_c01 := check_with chk_c01.
